@@ -1211,6 +1211,11 @@ class Connection(object):
                 self._process_segment_buffer()
                 self._io_buffer.reset_io_buffer()
 
+            if self.is_defunct:
+                # e.g. after a checksum mismatch: nothing that was buffered behind the failure can
+                # be trusted, and every pending request has been failed already
+                return
+
             if self._is_checksumming_enabled and not self._io_buffer.has_consumed_segment:
                 # We couldn't read an entire segment from the io buffer, so return
                 # control to allow more bytes to be read off the wire
